@@ -378,7 +378,6 @@ func c02MutateBinary(r *Rng, doc []byte) []byte {
 	return out
 }
 
-
 // c02GenBinaryCPU builds a binary CPU profile document (all four word kinds, C++/java flag,
 // with or without end marker and text tail).
 func c02GenBinaryCPU(r *Rng) []byte {
